@@ -26,12 +26,19 @@ void vp_set_state_fn(uint64_t (*fn)(void));
 extern int vp_sched_active;
 extern size_t vp_stack_size;                                 /* coroutine stack size (<= 1 MiB), default 256 KiB */
 
+/* optional: address-independent form of an 8-byte value a coroutine read (pointers) */
+extern uint64_t (*vp_value_canon)(uint64_t v);
 /* hooks the TSan-ABI runtime calls (vp_tsan_abi.c) */
 void vp_access(const volatile void *addr, int size, int is_write);
 /* harness hook: called for every atomic access with its memory order (may be NULL) */
 extern void (*vp_atomic_hook)(const volatile void *addr, int is_store, int mo);
 /* harness hook: return 0 to make an access invisible (immutable data) */
 extern int (*vp_access_filter)(const volatile void *addr, int size, int is_write);
+
+/* heap of TSan-ABI instrumented units */
+void vp_heap_reset(void);
+uint64_t vp_heap_hash(void);
+uint64_t vp_heap_canon(uint64_t word);
 
 /* wrapped pthread objects */
 void vp_sync_reset(void);
